@@ -5,6 +5,7 @@ package slotsupervisor
 //vf:job C20 quick VF_C20_NodeState shape=0..5
 //vf:job C20 quick VF_C20_Topology nodes=1..3 retries=0
 //vf:job C20 quick VF_C20_Topology nodes=1..2 retries=1
+//vf:job C19 quick VF_C20_Topology nodes=2 retries=1 secret=1
 //vf:job C20 thorough VF_C20_Topology nodes=3 retries=1
 //vf:job C20 thorough VF_C20_Topology nodes=2 retries=2
 //vf:job C20 thorough VF_C20_Topology nodes=4 retries=0
@@ -135,7 +136,12 @@ func VF_C20_Topology() {
 	}
 	calls := make([]int, n)
 	closed := 0
-	node := slot.SyncNode{Source: names[0], Slaves: append([]string{}, names[1:]...), SourcePassword: "pw"}
+	pw := "pw"
+	if vfParam("secret", 0) == 1 {
+		pw = vfStr("srcpw", 6)
+		vfSecret("source password", pw)
+	}
+	node := slot.SyncNode{Source: names[0], Slaves: append([]string{}, names[1:]...), SourcePassword: pw}
 	s := &slotSupervisor{slot: node, maxRetries: retries}
 	s.redisConnFactory = func(host, password string, tls bool) (redigo.Conn, error) {
 		idx := -1
@@ -211,6 +217,6 @@ func VF_C20_Topology() {
 	for i := 0; i < n; i++ {
 		vfAssert(calls[i] == decided+1, "probing continued after a master was found, or stopped early")
 	}
-	vfAssert(res.SourcePassword == "pw", "descriptor fields lost")
+	vfAssert(vfEqStr(res.SourcePassword, pw), "descriptor fields lost")
 	vfAssertTwin(err != nil, "twin")
 }
